@@ -205,3 +205,102 @@ package rtcp
 //@   loop 1
 //@     invariant 0 <= iter() && iter() <= len(r.Reports)
 //@     decreases len(r.Reports) - iter()
+
+// ===================================================================================================
+// goodbye.go
+// ===================================================================================================
+
+//@ func (g *Goodbye) MarshalSize() (result int)
+//@   safety[C09,C17]
+//@   ensures size: result == specByeSize(len(g.Sources), len(g.Reason))
+
+//@ func (g *Goodbye) Header() (result Header)
+//@   safety[C09,C17]
+//@   ensures hdr: result == Header{Padding: false, Count: uint8(len(g.Sources)), Type: TypeGoodbye, Length: uint16(specByeSize(len(g.Sources), len(g.Reason))/4 - 1)}
+
+//@ func (g Goodbye) Marshal() (result []byte, err error)
+//@   safety[C09]
+//@   fresh
+//@   ensures[C08] ok: (err == nil) <==> (len(g.Sources) <= 31 && len(g.Reason) <= 255)
+//@   ensures[C08] nobytes: err != nil ==> len(result) == 0
+//@   ensures[C03,C05] size: err == nil ==> len(result) == specByeSize(len(g.Sources), len(g.Reason))
+//@   ensures[C05] aligned: err == nil ==> len(result)%4 == 0
+//@   ensures[C03,C05,C07] header: err == nil ==> be32(result, 0) == specHeaderWord(false, uint8(len(g.Sources)), 203, uint16(len(result)/4-1))
+//@   ensures[C03] sources: forall k :: err == nil && 0 <= k && k < len(g.Sources) ==> be32(result, 4+4*k) == g.Sources[k]
+//@   ensures[C03] reasonlen: err == nil && len(g.Reason) > 0 ==> result[4+4*len(g.Sources)] == uint8(len(g.Reason))
+//@   ensures[C03] reason: forall k :: err == nil && 0 <= k && k < len(g.Reason) ==> result[4+4*len(g.Sources)+1+k] == g.Reason[k]
+//@   ensures[C03] padzero: forall k :: err == nil && len(g.Reason) > 0 && 4+4*len(g.Sources)+1+len(g.Reason) <= k && k < len(result) ==> result[k] == 0
+//@   loop 1
+//@     invariant 0 <= iter() && iter() <= len(g.Sources) && len(g.Sources) <= 31
+//@     invariant[C03] forall k :: 0 <= k && k < iter() ==> be32(rawPacket, 4+4*k) == g.Sources[k]
+//@     invariant[C03] forall k :: 4+4*iter() <= k && k < len(rawPacket) ==> rawPacket[k] == 0
+//@     decreases len(g.Sources) - iter()
+
+//@ func (g *Goodbye) Unmarshal(rawPacket []byte) (err error)
+//@   safety[C01]
+//@   modifies *g
+//@   nocap
+//@   allocates[C01] 256 + 2*len(rawPacket)
+//@   ensures[C07] type: err == nil ==> rawPacket[1] == 203 && rawPacket[0]>>6 == 2
+//@   ensures[C04] count: err == nil ==> len(g.Sources) == int(rawPacket[0]&31) && len(rawPacket) >= 4+4*len(g.Sources)
+//@   ensures[C04] sources: forall k :: err == nil && 0 <= k && k < len(g.Sources) ==> g.Sources[k] == be32(rawPacket, 4+4*k)
+//@   ensures[C04] reasonlen: err == nil && len(rawPacket) > 4+4*len(g.Sources) ==> len(g.Reason) == int(rawPacket[4+4*len(g.Sources)])
+//@   ensures[C04] reason: forall j :: err == nil && len(rawPacket) > 4+4*len(g.Sources) && 0 <= j && j < len(g.Reason) ==> g.Reason[j] == rawPacket[4+4*len(g.Sources)+1+j]
+//@   ensures[C04] noreason: err == nil && len(rawPacket) == 4+4*len(g.Sources) ==> len(g.Reason) == 0
+//@   ensures[C04] inflated: len(rawPacket) >= 4 && 4+4*int(rawPacket[0]&31) > len(rawPacket) ==> err != nil
+//@   ensures[C04] accepts: len(rawPacket) >= 4 && rawPacket[0]>>6 == 2 && rawPacket[1] == 203 && len(rawPacket)%4 == 0 && len(rawPacket) >= 4+4*int(rawPacket[0]&31) && (len(rawPacket) == 4+4*int(rawPacket[0]&31) || 4+4*int(rawPacket[0]&31)+1+int(rawPacket[4+4*int(rawPacket[0]&31)]) <= len(rawPacket)) ==> err == nil
+//@   loop 1
+//@     invariant 0 <= i && i <= int(header.Count) && len(g.Sources) == int(header.Count) && unchanged(g.Sources) && unchanged(g.Reason)
+//@     invariant[C04] forall k :: 0 <= k && k < i ==> g.Sources[k] == be32(rawPacket, 4+4*k)
+//@     decreases int(header.Count) - i
+
+//@ func (g *Goodbye) DestinationSSRC() (result []uint32)
+//@   safety[C09,C10]
+//@   fresh
+//@   ensures[C10] same: seqEq(result, g.Sources)
+
+//@ func (g Goodbye) String() (result string)
+//@   safety[C17]
+//@   loop 1
+//@     invariant 0 <= iter() && iter() <= len(g.Sources)
+//@     decreases len(g.Sources) - iter()
+
+// ===================================================================================================
+// application_defined.go
+// ===================================================================================================
+
+//@ func (a *ApplicationDefined) MarshalSize() (result int)
+//@   safety[C09,C17]
+//@   ensures size: result == specAppSize(len(a.Data))
+
+//@ func (a ApplicationDefined) DestinationSSRC() (result []uint32)
+//@   safety[C09,C10]
+//@   fresh
+//@   ensures[C10] one: len(result) == 1 && result[0] == a.SSRC
+
+//@ func (a ApplicationDefined) Marshal() (result []byte, err error)
+//@   safety[C09]
+//@   fresh
+//@   unroll 1 4
+//@   ensures[C08] ok: (err == nil) <==> (len(a.Data) <= 0xFFFF-12 && len(a.Name) == 4 && a.SubType <= 31)
+//@   ensures[C08] nobytes: err != nil ==> len(result) == 0
+//@   ensures[C03,C05] size: err == nil ==> len(result) == specAppSize(len(a.Data))
+//@   ensures[C05] aligned: err == nil ==> len(result)%4 == 0
+//@   ensures[C03,C05,C07] header: err == nil ==> be32(result, 0) == specHeaderWord(len(a.Data)%4 != 0, a.SubType, 204, uint16(len(result)/4-1))
+//@   ensures[C03] ssrc: err == nil ==> be32(result, 4) == a.SSRC
+//@   ensures[C03] name: forall k :: err == nil && 0 <= k && k < 4 ==> result[8+k] == a.Name[k]
+//@   ensures[C03] data: forall k :: err == nil && 0 <= k && k < len(a.Data) ==> result[12+k] == a.Data[k]
+//@   ensures[C03] padcount: err == nil && len(a.Data)%4 != 0 ==> int(result[len(result)-1]) == specPad4(len(a.Data))
+
+//@ func (a *ApplicationDefined) Unmarshal(rawPacket []byte) (err error)
+//@   safety[C01]
+//@   modifies *a
+//@   nocap
+//@   allocates[C01] 64 + 2*len(rawPacket)
+//@   ensures[C07] type: err == nil ==> rawPacket[1] == 204 && rawPacket[0]>>6 == 2
+//@   ensures[C04,C06] framed: err == nil ==> len(rawPacket) >= 12 && len(rawPacket) == 4*(int(be16(rawPacket, 2))+1)
+//@   ensures[C04] fields: err == nil ==> a.SubType == rawPacket[0]&31 && a.SSRC == be32(rawPacket, 4) && len(a.Name) == 4
+//@   ensures[C04] name: forall k :: err == nil && 0 <= k && k < 4 ==> a.Name[k] == rawPacket[8+k]
+//@   ensures[C04] unpadded: err == nil && rawPacket[0]>>5&1 == 0 ==> seqEq(a.Data, rawPacket[12:])
+//@   ensures[C04] padded: err == nil && rawPacket[0]>>5&1 == 1 ==> seqEq(a.Data, rawPacket[12:len(rawPacket)-int(rawPacket[len(rawPacket)-1])])
+//@   ensures[C04] accepts: len(rawPacket) >= 12 && rawPacket[0]>>6 == 2 && rawPacket[1] == 204 && len(rawPacket) == 4*(int(be16(rawPacket, 2))+1) && (rawPacket[0]>>5&1 == 0 || int(rawPacket[len(rawPacket)-1]) <= len(rawPacket)-12) ==> err == nil
